@@ -239,9 +239,12 @@ func (c *Cache) addJarToCache(sessionID string, jar http.CookieJar) {
 // cachedCookieJar returns the CookieJar mapped to the sessionID
 func (c *Cache) cachedCookieJar(sessionID string) (jar http.CookieJar, err error) {
 	// lru.Cache is not safe for concurrent access, and Get updates the recency list.
+	//
+	// The lock is held until a missing jar has been added, so that concurrent requests
+	// in a session that is not (or no longer) cached all end up with the same jar.
 	c.mu.Lock()
+	defer c.mu.Unlock()
 	val, ok := c.cache.Get(sessionID)
-	c.mu.Unlock()
 	if !ok {
 		options := cookiejar.Options{
 			PublicSuffixList: publicsuffix.List,
@@ -250,7 +253,7 @@ func (c *Cache) cachedCookieJar(sessionID string) (jar http.CookieJar, err error
 		if sessionID != "" {
 			// A request without a session gets an empty jar of its own; caching that
 			// would take one of the slots away from the actual sessions.
-			c.addJarToCache(sessionID, jar)
+			c.cache.Add(sessionID, jar)
 		}
 		return jar, err
 	}
